@@ -60,7 +60,10 @@ func (h *TwoPartyHandler) Listen() <-chan *Message {
 }
 
 func (h *TwoPartyHandler) Stop() {
-	if h.err != nil || h.result != nil {
+	h.mtx.Lock()
+	defer h.mtx.Unlock()
+	// nothing to do once the protocol has ended: the channel is already closed.
+	if h.err == nil && h.result == nil {
 		h.abort(errors.New("aborted by user"))
 	}
 }
@@ -178,6 +181,13 @@ func (h *TwoPartyHandler) advance() {
 }
 
 func (h *TwoPartyHandler) CanAccept(msg *Message) bool {
+	h.mtx.Lock()
+	defer h.mtx.Unlock()
+	return h.canAccept(msg)
+}
+
+// canAccept is CanAccept for callers that already hold the lock.
+func (h *TwoPartyHandler) canAccept(msg *Message) bool {
 	r := h.round
 	if msg == nil {
 		return false
@@ -207,7 +217,7 @@ func (h *TwoPartyHandler) Accept(msg *Message) {
 	h.mtx.Lock()
 	defer h.mtx.Unlock()
 
-	if !h.CanAccept(msg) || h.err != nil || h.result != nil {
+	if !h.canAccept(msg) || h.err != nil || h.result != nil {
 		return
 	}
 
